@@ -496,3 +496,49 @@ Theorem C08_engine_roundtrip_example_f8 :
   fe_generic_hide exe_all exe_probes g' = fe_generic_hide exe_all exe_probes e.
 Proof. exact engine_roundtrip_example_f8. Qed.
 Print Assumptions C08_engine_roundtrip_example_f8.
+
+(* ------------------------------------------------------------------ the decoder contract of the
+   byte-level round trip DISCHARGED by the msgpack decoder model: the only premise left is that the
+   wire value fits the format's integer widths (wire_fits), shown necessary *)
+From Adb Require Import Base Generated Wire_Model C10_Model Msgpack_Model Msgpack_Proofs.
+From Adb Require Import C08_Model C08_Query_Model C08_Engine_Model C08_Proofs C08_Query_Proofs Msgpack_C08_Proofs.
+
+Theorem C08_from_tree_wire_tree :
+  forall w : wire, forallb wrule_u32 (wire_rules w) = true -> from_tree (wire_tree w) = Some w.
+Proof. exact from_tree_wire_tree. Qed.
+Print Assumptions C08_from_tree_wire_tree.
+
+Theorem C08_decode_wire_own :
+  forall w : wire, wire_fits w = true -> decode_wire (encode (wire_tree w)) = Some w.
+Proof. exact decode_wire_own. Qed.
+Print Assumptions C08_decode_wire_own.
+
+Theorem C08_engine_deserialize_own_msgpack :
+  forall (as_css : str -> option (str * str)) (build_list : list rule -> bool -> bucket_map)
+    (l e : full_engine),
+  wire_fits (fe_wire as_css e) = true ->
+  fe_deserialize build_list decode_wire l (fe_serialize as_css e) =
+  Ok (fe_install build_list l (fe_wire as_css e), None).
+Proof. exact engine_deserialize_own_msgpack. Qed.
+Print Assumptions C08_engine_deserialize_own_msgpack.
+
+Theorem C08_engine_bytes_roundtrip_msgpack :
+  forall (as_css : str -> option (str * str)) (build_list : list rule -> bool -> bucket_map)
+    (l e : full_engine),
+  wire_fits (fe_wire as_css e) = true ->
+  rules_ok (e_blocker (fe_state e)) ->
+  keys_distinct (e_blocker (fe_state e)) ->
+  stores_agree (fe_store l) (fe_store e) ->
+  tags_installed build_list (e_blocker (fe_state e)) ->
+  b_tags_enabled (e_blocker (fe_state l)) = b_tags_enabled (e_blocker (fe_state e)) ->
+  exists g' : full_engine,
+    fe_deserialize build_list decode_wire l (fe_serialize as_css e) = Ok (g', None) /\
+    same_answers_but_rewritten g' e /\ (no_removeparam (e_blocker (fe_state e)) -> same_answers g' e).
+Proof. exact engine_bytes_roundtrip_msgpack. Qed.
+Print Assumptions C08_engine_bytes_roundtrip_msgpack.
+
+Theorem C08_from_tree_u32_needed_refuted :
+  exists w : wire, mp_wf (wire_tree w) = true /\ from_tree (wire_tree w) = None.
+Proof. exact from_tree_u32_needed. Qed.
+Print Assumptions C08_from_tree_u32_needed_refuted.
+
